@@ -243,3 +243,99 @@ def family(t: DT) -> str:
     if t.cls == "List":
         return "List"
     return t.cls
+
+
+class SrcModel(Model):
+    """the same interface, but every type-level function is the *interpreted source* of tree/types.py and
+    ops/signature.py (typefns.SourceTypes); the hand-written model above remains as an independent cross-check
+    (rule XMODEL).  PyRaise is mapped onto the model's outcome classes:
+    DataTypeError -> rejection (None), the uniqueness assertion of best_signature_match -> Ambiguous, anything
+    else -> InternalError carrying the Python exception name."""
+
+    def __init__(self, cat: Catalogue):
+        super().__init__(cat)
+        from .typefns import PyRaise, SourceTypes
+
+        self.S = SourceTypes(cat)
+        self.PyRaise = PyRaise
+
+    def _wrap(self, fn, *a):
+        try:
+            return fn(*a)
+        except self.PyRaise as p:
+            raise InternalError(f"{p.name}: {p.msg} [{getattr(p.node, 'lineno', '?')}]") from None
+
+    def converts_to(self, source, target):
+        return self._wrap(self.S.converts_to, source, target)
+
+    def conversion_cost(self, dtype, target):
+        return self._wrap(self.S.conversion_cost, dtype, target)
+
+    def implicit_conversions(self, dtype):
+        return self._wrap(self.S.implicit_conversions, dtype)
+
+    def sig_distance(self, sig, target):
+        return self._wrap(self.S.sig_distance, sig, target)
+
+    def best_match(self, op, sig):
+        try:
+            r = self.S.best_match(op, sig)
+        except self.PyRaise as p:
+            if p.name == "AssertionError" and "sum(" in p.msg and "== 1" in p.msg:
+                # the uniqueness assertion: collect the tied candidates for the report
+                cands = self.S.all_matches(op, sig)
+                dists = [self.S.sig_distance(sig, c[0]) for c in cands]
+                best = min(dists)
+                raise Ambiguous(best, [c for c, d in zip(cands, dists) if d == best]) from None
+            raise InternalError(f"{p.name}: {p.msg} [{getattr(p.node, 'lineno', '?')}]") from None
+        if r is None:
+            return None
+        return (list(r[0]), r[1])
+
+    def lca_type(self, dtypes):
+        try:
+            return self.S.lca_type(dtypes)
+        except self.PyRaise as p:
+            if p.name == "DataTypeError":
+                return None
+            if p.name == "AssertionError" and "sum(" in p.msg and "== 1" in p.msg:
+                raise Ambiguous(None, []) from None
+            raise InternalError(f"{p.name}: {p.msg} [{getattr(p.node, 'lineno', '?')}]") from None
+
+
+class HybridModel(SrcModel):
+    """pair-level functions (converts_to, conversion_cost, implicit_conversions) and lca_type come from the
+    interpreted source; the trie walk / best-candidate selection is the hand-written model M2-M6 (fast), which rule
+    XMODEL compares with the interpreted SignatureTrie on a subset (quick) / the whole universe (thorough)."""
+
+    def __init__(self, cat):
+        super().__init__(cat)
+        self._pc: dict = {}
+
+    def _cached(self, name, fn, *a):
+        k = (name, a)
+        r = self._pc.get(k)
+        if r is None:
+            try:
+                r = ("v", fn(*a))
+            except InternalError as e:
+                r = ("e", e)
+            self._pc[k] = r
+        if r[0] == "e":
+            raise r[1]
+        return r[1]
+
+    def converts_to(self, source, target):
+        return self._cached("ct", SrcModel.converts_to.__get__(self), source, target)
+
+    def conversion_cost(self, dtype, target):
+        return self._cached("cc", SrcModel.conversion_cost.__get__(self), dtype, target)
+
+    def implicit_conversions(self, dtype):
+        return self._cached("ic", SrcModel.implicit_conversions.__get__(self), dtype)
+
+    sig_distance = Model.sig_distance
+    best_match = Model.best_match
+
+    def src_best_match(self, op, sig):
+        return SrcModel.best_match(self, op, sig)
